@@ -544,7 +544,13 @@ type Case struct {
 	Limit  int    `json:"limit"`   // the underlying writer accepts this many body bytes in total, -1 = unlimited
 	CapErr bool   `json:"cap_err"` // capability methods of the underlying writer return an error (to be propagated)
 	Calls  []Call `json:"calls"`
+	// Prior: what the handler of an earlier request did on the same router, against a fully capable writer, before the judged
+	// request ("" = nothing came before). Contexts and their writers are recycled; the judged writer is whichever one the
+	// router hands to the handler, and the statement holds for it regardless of what it was used for before.
+	Prior string `json:"prior,omitempty"`
 }
+
+var priors = []string{"", "", "hijack", "body", "flush", "readfrom", "informational"}
 
 func (c *Case) prefix(i int) string {
 	var sb strings.Builder
@@ -553,6 +559,9 @@ func (c *Case) prefix(i int) string {
 		sb.WriteString("any number of bytes")
 	} else {
 		fmt.Fprintf(&sb, "%d byte(s)", c.Limit)
+	}
+	if c.Prior != "" {
+		fmt.Fprintf(&sb, "; an earlier request on the router did %q on its writer", c.Prior)
 	}
 	sb.WriteString("; calls on c.Writer(): ")
 	for k := 0; k <= i && k < len(c.Calls); k++ {
@@ -804,6 +813,31 @@ func runSeq(fam *family, c *Case) (res *runResult, err error) {
 	if _, e := f.Handle(http.MethodGet, "/x", handler); e != nil {
 		return nil, fmt.Errorf("Handle: %v", e)
 	}
+	if c.Prior != "" {
+		_, e := f.Handle(http.MethodGet, "/prior", func(fc fox.Context) {
+			w := fc.Writer()
+			switch c.Prior {
+			case "hijack":
+				_, _, _ = w.Hijack()
+			case "body":
+				w.WriteHeader(http.StatusCreated)
+				_, _ = w.Write([]byte("prior"))
+			case "flush":
+				w.WriteHeader(http.StatusAccepted)
+				_ = w.FlushError()
+			case "readfrom":
+				_, _ = w.ReadFrom(strings.NewReader("prior"))
+			case "informational":
+				w.WriteHeader(http.StatusEarlyHints)
+			}
+		})
+		if e != nil {
+			return nil, fmt.Errorf("Handle: %v", e)
+		}
+		pco, pdone := newCore(-1, false)
+		f.ServeHTTP(familyByName("all").mk(pco), httptest.NewRequest(http.MethodGet, "/prior", nil))
+		pdone()
+	}
 	f.ServeHTTP(under, httptest.NewRequest(http.MethodGet, "/x", nil))
 	if !ran {
 		return nil, fmt.Errorf("the handler was not run")
@@ -879,6 +913,9 @@ func classify(c *Case, fam *family, res *runResult) {
 	stats.Class("writer:" + fam.Name)
 	stats.Class(fmt.Sprintf("limit:%d", c.Limit))
 	stats.Class(fmt.Sprintf("len:%d", len(c.Calls)))
+	if c.Prior != "" {
+		stats.Class("recycled-context-after:" + c.Prior)
+	}
 	ft := res.ft
 	for name, on := range map[string]bool{
 		"feat:readfrom": ft.readFrom, "feat:partly-accepted-write": ft.partial, "feat:failing-source": ft.failingSource,
@@ -954,6 +991,7 @@ func genCase(t *rapid.T) *Case {
 		off += len(call.Data)
 		c.Calls = append(c.Calls, call)
 	}
+	c.Prior = gen.Pick(t, priors, "prior")
 	if gen.Chance(t, 1, 12, "hijack") && len(c.Calls) < 8 {
 		c.Calls = append(c.Calls, Call{Op: opHijack})
 	}
@@ -1024,7 +1062,7 @@ func enumerate(t *testing.T, alpha []Call, maxLen int, lims []int, capErrs []boo
 							if *counter%shards != shard {
 								continue
 							}
-							c := &Case{Writer: fam.Name, Limit: lim, CapErr: ce, Calls: calls}
+							c := &Case{Writer: fam.Name, Limit: lim, CapErr: ce, Calls: calls, Prior: priors[*counter%len(priors)]}
 							stats.Eval()
 							if *counter%20011 == 1 {
 								stats.Sample(c)
